@@ -153,6 +153,14 @@ impl ParentReadyState {
     }
 }
 
+#[cfg(feature = "verif-hooks")]
+impl ParentReadyState {
+    /// Returns `true` iff a waiter is currently registered (verification harness only).
+    pub(super) fn verif_has_waiter(&self) -> bool {
+        matches!(&self.is_ready, IsReady::NotReady(Some(_)))
+    }
+}
+
 #[cfg(test)]
 mod tests {
     use super::*;
